@@ -110,3 +110,37 @@ impl super::Debugger {
         Ok(self.debugee.return_addr(pid)?.map(usize::from))
     }
 }
+/// C19: which DIEs `var locals` / `var <name>` / `arg all` / `arg <name>` resolve to in the selected frame.
+impl super::Debugger {
+    pub fn verif_selected_dies(
+        &self,
+        name: Option<&str>,
+        on_args: bool,
+    ) -> Result<Vec<(usize, usize)>, Error> {
+        use super::variable::dqe::Selector;
+        let selector = match name {
+            Some(n) => Selector::by_name(n, true),
+            None => Selector::Any,
+        };
+        super::variable::execute::DqeExecutor::new(self).verif_selected_dies(&selector, on_args)
+    }
+}
+
+/// C19: the three DWARF <-> machine register conversions of `register.rs`.
+pub fn verif_register_to_dwarf(name: &str) -> Option<Option<u16>> {
+    use std::str::FromStr;
+    super::register::Register::from_str(name)
+        .ok()
+        .map(|r| r.dwarf_register().map(|d| d.0))
+}
+
+/// May panic (unknown DWARF register numbers), exactly as `From<gimli::Register> for Register` does.
+pub fn verif_register_from_dwarf(n: u16) -> String {
+    super::register::Register::from(gimli::Register(n)).to_string()
+}
+
+pub fn verif_dwarf_map_value(map: super::register::RegisterMap, n: u16) -> Option<u64> {
+    super::register::DwarfRegisterMap::from(map)
+        .value(gimli::Register(n))
+        .ok()
+}
